@@ -104,6 +104,16 @@ impl Judge<'_> {
 
     fn judge_exact(&self, obs: &XargsObs, spawns: &[Vec<Vec<u8>>], rep: &mut Report) {
         let exp = self.exp;
+        if let Some((alt_spawns, alt_exit, _)) = &exp.alt {
+            if spawns == alt_spawns.as_slice() && spawns != exp.spawns.as_slice() {
+                // the invocation being filled when the oversize argument arrived was not run
+                rep.probe("pending_invocation_abandoned_at_own_error");
+                if obs.status != RunStatus::Exit(*alt_exit) {
+                    self.fail(rep, "exit-status", format!("expected exit status {alt_exit} but got {:?}", obs.status));
+                }
+                return;
+            }
+        }
         if spawns != exp.spawns.as_slice() {
             let ncmd = obs.cmd.len();
             let clause = match self.cfg.mode {
@@ -240,8 +250,10 @@ impl Judge<'_> {
         // cannot fit under -s)
         if let Some(own) = self.exp.own_error {
             let upto = self.exp.ranges.last().map(|r| r.1).unwrap_or(0);
+            // the invocation being filled when the error is met may or may not run first
+            let at_least = self.exp.alt.as_ref().map(|a| a.2).unwrap_or(upto);
             if fatal.is_none() {
-                if delivered.len() != upto {
+                if delivered.len() > upto || delivered.len() < at_least {
                     return self.fail(
                         rep,
                         "own-error-delivery",
